@@ -78,7 +78,11 @@ def walk(st, segn, items):
         atoms = [a for a in atoms if not (isinstance(a, str) and a == '')]
         if i == len(items): return [] if not atoms else None
         it0 = items[i]
-        if not atoms: return None
+        if not atoms:
+            if it0[0] != 'lit' and lit_matches(it0[2], ''):
+                r = rec(i + 1, atoms)
+                return None if r is None else [(it0, SStr([]))] + r
+            return None
         a = atoms[0]
         if it0[0] == 'lit':
             if isinstance(a, str) and a.startswith(it0[1]): return rec(i + 1, [a[len(it0[1]):]] + atoms[1:])
@@ -86,7 +90,8 @@ def walk(st, segn, items):
         if isinstance(a, Var):
             r = rec(i + 1, atoms[1:])
             return None if r is None else [(it0, SStr([a]))] + r
-        for n in range(1, len(a) + 1):
+        for n in range(0, len(a) + 1):       # n == 0: the group matches the empty string (an empty field value)
+            if n == 0 and not lit_matches(it0[2], ''): continue
             if lit_matches(it0[2], a[:n]):
                 r = rec(i + 1, [a[n:]] + atoms[1:])
                 if r is not None: return [(it0, SStr([a[:n]]))] + r
@@ -186,7 +191,7 @@ class RegexModel:
             # x does not end with \n : record as a regex fact on the leaf
             from .sstr import charset, SC
             anyc = z3.Star(charset([(SC.NEGATE, None)])); nonl = charset([(SC.NEGATE, None), (SC.LITERAL, 10)])
-            st.assume(z3.InRe(x.z, z3.Union(z3.Re(z3.StringVal('')), z3.Concat(anyc, nonl))))
+            st.assume(z3.Or(x.z == z3.StringVal(''), z3.InRe(x.z, z3.Concat(anyc, nonl))))
             if not st.branch(a, f're#{i}$'): return False
             groups.append((name, seg)); return True
         return self._last_single(it, i, name, zre, src, seg, st.norm(seg), groups)
@@ -236,16 +241,28 @@ class RegexModel:
                         if item[0] == 'grp': groups.append((item[1], simp(piece)))
                     continue
             whole = _concat([z3.Re(z3.StringVal(x[1])) if x[0] == 'lit' else x[2] for x in ch.items])
+            if last and not _cannot_end_nl(st, segn) and isinstance(segn.atoms[-1], Var):
+                # decide structurally first whether the segment ends with "\n" (avoids substr/len in the formulas)
+                x = segn.atoms[-1]
+                if st.branch(SBool(z3.SuffixOf(z3.StringVal('\n'), x.z)), f're#{i}$nl'):
+                    st.pc.pop()
+                    u = Var(x.name + '.u'); st.excl[u.name] = set(st.excl.get(x.name, ())); st.do_subst(x, (u, '\n'))
+                else:
+                    st.pc.pop()
+                    from .sstr import charset, SC
+                    anyc = z3.Star(charset([(SC.NEGATE, None)])); nonl = charset([(SC.NEGATE, None), (SC.LITERAL, 10)])
+                    st.assume(z3.Or(x.z == z3.StringVal(''), z3.InRe(x.z, z3.Concat(anyc, nonl))))
+                    st.excl.setdefault(x.name, set())
+                    st.no_nl_end = getattr(st, 'no_nl_end', set()) | {x.name}
+                segn = st.norm(seg)
             zseg = segn.z()
-            if last and not _cannot_end_nl(st, segn):
-                bodyz = z3.SubString(zseg, 0, z3.Length(zseg) - 1); a = z3.InRe(zseg, whole)
-                optB = [z3.Not(a), z3.SuffixOf(z3.StringVal('\n'), zseg), z3.InRe(bodyz, whole)]
-                k = st.choose([('m', [a]), ('m-nl', optB), ('no', [z3.Not(z3.Or(a, z3.And(*optB)))])], f're#{i}$')
+            ends_nl = bool(segn.atoms) and isinstance(segn.atoms[-1], str) and segn.atoms[-1].endswith('\n')
+            if last and ends_nl:
+                body = SStr(segn.atoms[:-1] + (segn.atoms[-1][:-1],))
+                a = z3.InRe(zseg, whole); bz = z3.InRe(body.z(), whole) if body.atoms else z3.BoolVal(lit_matches(whole, ''))
+                k = st.choose([('m', [a]), ('m-nl', [z3.Not(a), bz]), ('no', [z3.Not(z3.Or(a, bz))])], f're#{i}$')
                 if k == 2: return None
-                if k == 1:
-                    if len(segn.atoms) == 1 and isinstance(segn.atoms[0], Var):
-                        x = segn.atoms[0]; u = Var(x.name + '.u'); st.excl[u.name] = set(st.excl.get(x.name, ())); st.do_subst(x, (u, '\n')); segn = SStr([u])
-                    else: raise OutsideSubset('newline before $ on a structured multi-group chunk')
+                if k == 1: segn = body; st.pc.pop()      # membership of the body is implied by the group constraints below
                 else: st.pc.pop()
             else:
                 if not st.branch(SBool(z3.InRe(zseg, whole)), f're#{i}'): return None
@@ -276,7 +293,7 @@ def _cannot_end_nl(st, segn):
     if not segn.atoms: return True
     a = segn.atoms[-1]
     if isinstance(a, str): return not a.endswith('\n')
-    return '\n' in st.excl.get(a.name, ())
+    return '\n' in st.excl.get(a.name, ()) or a.name in getattr(st, 'no_nl_end', ())
 
 class MatchModel:
     def __init__(self, groups): self.groups = groups
@@ -293,7 +310,8 @@ class MatchModel:
 
 # ------------------------------------------------------------------ pathlib model
 class PathModel:
-    """pathlib.Path on normalised posix strings (assumption A-path-norm: no '//' , no '.' component, no trailing '/')"""
+    """pathlib.PurePosixPath(str): str() is the normalised string -- empty components ("//", trailing "/") and "." components are dropped;
+    a leading "/" is kept (exactly two leading slashes are kept as "//" by POSIX rules: outside the model -> OutsideSubset)."""
     def __init__(self, s): self.s = s
     def pyvc_str(self, it): return self.s
     def pyvc_eq(self, it, other):
@@ -302,13 +320,34 @@ class PathModel:
     def pyvc_getattr(self, it, name):
         if name == 'as_posix': return PBuiltin(lambda it: self.s, 'as_posix')
         raise OutsideSubset('Path.' + name)
+def normalise_path(it, a):
+    st = it.st
+    la = V._lit(it, a)
+    if la is not None:
+        import pathlib; return str(pathlib.PurePosixPath(la))
+    segs, open_tail = st.split(a, '/', -1, 'path-components', max_open=40)
+    if open_tail: raise OutsideSubset('Path() of a string with too many components')
+    segs = [simp(x) for x in segs]
+    absolute = False
+    if len(segs) > 1 and not it.is_true(segs[0], 'path:absolute'):
+        absolute = True; segs = segs[1:]
+        if segs and not it.is_true(segs[0], 'path:double-slash'): raise OutsideSubset('Path() of a string starting with "//"')
+    keep = []
+    for x in segs:
+        if not it.is_true(x, 'path:empty-component'): continue
+        if it.known_eq(x, '.'): continue
+        keep.append(x)
+    out = it.concat(V.interleave('/', keep))
+    if absolute: out = it.concat(['/', out])
+    elif not keep: out = '.'
+    return out
 class PathClass:
     def pyvc_call(self, it, args, kwargs):
         if len(args) != 1: raise OutsideSubset('Path() with several parts')
         a = args[0]
         if isinstance(a, PathModel): return PathModel(a.s)
         if not isinstance(a, (str, SStr)): it.raise_('TypeError', 'expected str, bytes or os.PathLike object')
-        return PathModel(a)
+        return PathModel(normalise_path(it, a))
     def pyvc_instancecheck(self, it, v): return isinstance(v, PathModel)
 
 # ------------------------------------------------------------------ functools.lru_cache (resolva): a real memo table
